@@ -84,7 +84,7 @@ def seed_strategy(a, rng, allow=("int", "gen", "uniform", "extreme", "undercoord
                 for L in lists:
                     if L:
                         prio.append(L.pop(0))
-            if rng.random() < 0.3:
+            if rng.random() < 0.5:
                 # one species first: all interface seeds of one slab in a row
                 z0 = int(num[prio[0]])
                 prio = [x for x in prio if int(num[x]) == z0] + [x for x in prio if int(num[x]) != z0]
@@ -462,7 +462,7 @@ def gen_clf_world(prop, root, w, tier):
 # C02 / C03 / C04: crystal workloads, many seed-atom schedules per structure
 
 CRYSTAL_STRATS = ("int", "int", "gen", "uniform", "extreme", "undercoord", "chain")
-STACK_STRATS = ("int", "int", "gen", "uniform", "undercoord", "interface", "interface", "chain")
+STACK_STRATS = ("int", "gen", "uniform", "undercoord", "interface", "interface", "interface", "interface", "chain")
 
 
 def _draw_sample(prop, rw, maxn):
